@@ -48,7 +48,9 @@ ASSUMPTIONS = [
     "workloads: pure task programs with int arguments and nested-list results (values have Expression subvalues, no "
     "File/Handle values), every job records provenance, no tags/context; plus the `noprov` workload: shallow parent over "
     "prov=False children, every commit of its record_call_node as crash point / fault position, then EACH child edited "
-    "on its own copy of the database",
+    "on its own copy of the database; plus the `vstore` workload: backend with value_store_path and values above "
+    "value_store_min_size, process death right AFTER each commit that made a Value row durable, then: recovery result, "
+    "every Value row readable (backend.get_value), one more run executes no task",
     "process death = everything not committed is lost; one process at a time per database",
     "transient failure = ONE OperationalError raised instead of a writing commit (quick tier) or before any statement "
     "(thorough tier), retried with db_retries_backoff = 0",
@@ -276,6 +278,85 @@ def fault_case(ctx, w: Workload, k: int, mode, cases):
     return True
 
 
+def unreadable_values(path, cfg):
+    """Value rows whose value cannot be read back (`backend.get_value` says not cached)"""
+    import sqlite3
+    con = sqlite3.connect(path)
+    try:
+        hashes = [r[0] for r in con.execute("select value_hash from value")]
+    finally:
+        con.close()
+    s = ctl_db.new_scheduler(path, cfg)
+    bad = []
+    try:
+        for h in hashes:
+            try:
+                _, ok = s.backend.get_value(h)
+            except Exception as e:  # noqa: BLE001
+                ok = False
+            if not ok:
+                bad.append(h)
+    finally:
+        ctl_db.close_scheduler(s)
+    return bad
+
+
+def value_store_cases(ctx, env, flags, cases):
+    """backend with a value store and values above value_store_min_size; process death right AFTER every writing
+    commit (between a commit and the next statement); after recovery every recorded Value must be readable and one
+    more run must execute nothing"""
+    def cfg():
+        d = tempfile.mkdtemp(prefix="vstore-", dir=env.base)
+        return {"value_store_path": d, "value_store_min_size": "300"}
+    probe = ctl_db.Case(env, ctl_db.BigProgram(), flags, "vstore:clean")
+    probe.backend_cfg = cfg()
+    res, _, n = probe.run(0)
+    cases.append(probe)
+    if res != probe.prog.expected_main():
+        ctx.violation("C22-clean-run-wrong", "undisturbed run with a value store differs from direct evaluation",
+                      probe.describe(), repr(probe.prog.expected_main())[:100], repr(res)[:100])
+    # the commits that made a new Value row durable (the only ones after which value-store data can be missing)
+    dumps = [d for ev in probe.events for d in (ev.get("dumps") or [])]
+    ks = [i + 1 for i, d in enumerate(dumps) if len(d["values"]) > (len(dumps[i - 1]["values"]) if i else 0)]
+    if ctx.tier == "thorough":
+        ks = list(range(1, n + 1))
+    for k in ks:
+        prog = ctl_db.BigProgram()
+        c = ctl_db.Case(env, prog, flags, f"vstore:crash-after@{k}")
+        c.backend_cfg = cfg()
+        c.disturb.append("crash")
+        label = dict(workload="vstore", program=prog.describe(), crash_right_after_commit=k)
+        res, _, _ = c.run(0, crash_after=k)
+        outcomes = []
+        r1, _, _ = c.run(0)                      # recovery
+        exp = prog.expected_main()
+        outcomes.append(r1 if isinstance(r1, str) else ("ok" if r1 == exp else "WRONG"))
+        if r1 != exp:
+            ctx.violation(SIG["stale"][0] if not isinstance(r1, str) else "C22-recovery-run-raises",
+                          "recovery run after a process death differs from a fresh run", label,
+                          expected=repr(exp)[:200], actual=repr(r1)[:200], kind="crash_point")
+        bad = unreadable_values(c.repos[0], c.backend_cfg)
+        if bad:
+            ctx.violation("C22-value-row-without-value-store-object",
+                          "after recovery a recorded Value cannot be read back: its row exists (so record_value returns "
+                          "early) but the value store has no object for it", dict(label, unreadable=len(bad)),
+                          expected="every Value row readable", actual=f"{len(bad)} unreadable value(s)", kind="crash_point")
+            outcomes.append("unreadable")
+        del prog.runs[:]
+        r2, _, _ = c.run(0)                      # everything is cached now: nothing may execute
+        if prog.runs:
+            ctx.violation("C22-reexecution-after-recovery",
+                          "a run after the recovery run executes tasks again although nothing changed (a cached result is "
+                          "lost for good)", dict(label, executed=list(prog.runs)), expected="no task executed",
+                          actual=repr(prog.runs), kind="crash_point")
+            outcomes.append("re-executes")
+        fkv = ctl_db.fk_violations(c.repos[0])
+        if fkv:
+            ctx.violation(SIG["fk"][0], SIG["fk"][1], dict(label, where="after recovery"), expected="[]", actual=repr(fkv[:4]))
+        ctx.case(key=("vstore", k), sample=dict(label, outcomes=outcomes), kind="crash-after-commit", outcome="/".join(outcomes))
+        cases.append(c)
+
+
 def run(ctx):
     ctl_db.quiet()
     base = tempfile.mkdtemp(prefix="gC-c22-")
@@ -307,6 +388,7 @@ def run(ctx):
                 ctl_db.guarded(ctx, f"noprov:crash@{k}", lambda k=k: crash_case(ctx, wnp, k, cases))
             for k in range(rng_np[0], rng_np[1] + 1):
                 ctl_db.guarded(ctx, f"noprov:fault@{k}", lambda k=k: fault_case(ctx, wnp, k, "commit", cases))
+        ctl_db.guarded(ctx, "vstore", lambda: value_store_cases(ctx, env, flags, cases))
         for wi, w in enumerate(workloads):
             cases.append(w.clean)
             full = (wi == 0) or thorough
